@@ -575,3 +575,73 @@ Proof.
     rewrite (str2int_digits false [] _ ltac:(left; auto) NE A) by (rewrite V; lia).
     rewrite V. rewrite wrap64_id by (unfold in64; lia). reflexivity.
 Qed.
+
+(* ---------------------------------------------------------------- the strconv hypotheses are satisfiable *)
+(* ParseInt: a reference implementation satisfies ParseInt_ok for ALL inputs *)
+Definition ParseInt_ref (l : list Z) : pi_res :=
+  let '(neg, ds) := split_sign l in
+  let '(a, n, rest) := digits dec_digit 10 ds 0 0 in
+  match rest with
+  | [] => if 0 <? n then (let v := if neg then - a else a in if in64b v then PIOk v else PIErr) else PIErr
+  | _ => PIErr
+  end.
+
+Example ParseInt_ok_sat : ParseInt_ok ParseInt_ref.
+Proof.
+  intros sg neg ds ST NE A. unfold ParseInt_ref.
+  pose proof (alld_no_space ds A) as NS.
+  assert (SS : split_sign (sg ++ ds) = (neg, ds)).
+  { destruct ST as [[-> ->]|[[-> ->]|[-> ->]]]; try reflexivity.
+    destruct ds as [|c r]; [contradiction|]. cbn. destruct (NS c (or_introl eq_refl)) as (_ & -> & _). reflexivity. }
+  rewrite SS. rewrite (digits_alld dec_digit 10 ds 0 0 A).
+  assert (0 < 0 + Z.of_nat (length ds)) by (destruct ds; [contradiction|cbn [length]; lia]).
+  destruct (Z.ltb_spec 0 (0 + Z.of_nat (length ds))); [reflexivity|lia].
+Qed.
+
+(* ParseFloat: the reference function "what the manual's grammar denotes" satisfies both hypotheses on a
+   finite family of texts covering every syntactic shape (sign x integer/fraction/exponent parts, hex with
+   and without exponent, overflow, underflow, denormals, ties); in particular the two hypotheses do not
+   contradict each other or themselves there.  (For all texts the evidence is the correspondence check
+   against Go's strconv.ParseFloat.) *)
+Definition ParseFloat_ref (l : list Z) : f64 :=
+  match str2float l with Some f => f | None => fnan end.
+
+Definition sign_family : list (list Z * bool) := [([], false); ([43], false); ([45], true)].
+Definition of_ascii (s : list nat) : list Z := map Z.of_nat s.
+(* "0" "7" "10" "1.5" ".5" "5." "1e1" "1E+2" "25e-1" "1e308" "1e309" "1e-320" "1e-400" "9007199254740993"
+   "9007199254740992.5" "123456789012345678901234567890" "0.1" "2.5e-324" *)
+Definition dec_family : list (list Z) := map of_ascii
+  [[48]; [55]; [49;48]; [49;46;53]; [46;53]; [53;46]; [49;101;49]; [49;69;43;50]; [50;53;101;45;49];
+   [49;101;51;48;56]; [49;101;51;48;57]; [49;101;45;51;50;48]; [49;101;45;52;48;48];
+   [57;48;48;55;49;57;57;50;53;52;55;52;48;57;57;51]; [57;48;48;55;49;57;57;50;53;52;55;52;48;57;57;50;46;53];
+   [49;50;51;52;53;54;55;56;57;48;49;50;51;52;53;54;55;56;57;48;49;50;51;52;53;54;55;56;57;48];
+   [48;46;49]; [50;46;53;101;45;51;50;52]]%nat.
+(* bodies after 0x: "1" "ff" "1.8" ".8" "8." "1p4" "1P-1" "1.8p+1" "1p1023" "1p1024" "1p-1074" "1p-1075"
+   "1fffffffffffff8" "10000000000000001p0" *)
+Definition hex_family : list (list Z) := map of_ascii
+  [[49]; [102;102]; [49;46;56]; [46;56]; [56;46]; [49;112;52]; [49;80;45;49]; [49;46;56;112;43;49];
+   [49;112;49;48;50;51]; [49;112;49;48;50;52]; [49;112;45;49;48;55;52]; [49;112;45;49;48;55;53];
+   [49;102;102;102;102;102;102;102;102;102;102;102;102;102;56]; [49;48;48;48;48;48;48;48;48;48;48;48;48;48;48;48;49;112;48]]%nat.
+
+Definition same_float (f g : f64) : bool := Z.eqb (to_bits f) (to_bits g).
+
+Example ParseFloat_dec_ok_family :
+  forallb (fun sn : list Z * bool => let '(sg, neg) := sn in
+    forallb (fun body =>
+      match mantissa_exp dec_digit 10 is_e body with
+      | Some (M, nf, e) => same_float (ParseFloat_ref (sg ++ body)) (dec_to_float neg M (e - nf))
+      | None => false
+      end) dec_family) sign_family = true.
+Proof. vm_compute. reflexivity. Qed.
+
+Example ParseFloat_hex_ok_family :
+  forallb (fun sn : list Z * bool => let '(sg, neg) := sn in
+    forallb (fun body =>
+      forallb (fun x =>
+        match mantissa_exp hex_digit 16 is_p body with
+        | Some (M, nf, e) =>
+            same_float (ParseFloat_ref (sg ++ 48 :: x :: (if has_p body then body else body ++ [112; 48])))
+                       (of_mant_exp (cond_Zopp neg M) (e - 4 * nf) neg)
+        | None => false
+        end) [120; 88]) hex_family) sign_family = true.
+Proof. vm_compute. reflexivity. Qed.
